@@ -59,6 +59,7 @@ func init() {
 			{ID: "C01-R31", Title: "var declares in both its forms", Floor: 1, Run: varDeclaresInBothForms},
 			{ID: "C01-R32", Title: "the dispatch loop gives nil no meaning of its own", Floor: 1, Run: theDispatchLoopGivesNilNoMeaningOfItsOwn},
 			{ID: "C01-R33", Title: "operators do not manufacture constants", Floor: 3, Run: operatorsDoNotManufactureConstants},
+			{ID: "C01-R34", Title: "assignment targets are evaluated before the value", Floor: 3, Run: assignmentTargetsAreEvaluatedBeforeTheValue},
 		},
 	})
 }
